@@ -274,9 +274,9 @@ func TestVerifC14Packer(t *testing.T) {
 		c14Replay(t, res, p)
 		return
 	}
-	depth := 7
+	depth := 8
 	if ev.Thorough() {
-		depth = 9
+		depth = 11
 	}
 	res.Bounds["depth"] = depth
 	res.Rule = "BFS over histories of {receive(packer, size class 0/300B/1500B), advance virtual clock past the interval, clear(packer)} for every threshold configuration (MaxCount 1..3 x global memory 1KB|large x failing flush index none|0|1|2, 1-2 packers sharing the global budget); each history replayed on fresh real Packers inside a synctest bubble and compared step by step with a list-based reference; states deduplicated on (buffered sizes, count checker, age flag, byte counters, global counter, failure progress) = the packers' entire mutable state; non-trivial = distinct states reached through a multi-pack flush or with bytes buffered in another packer at flush time"
